@@ -52,7 +52,8 @@ fn get_guard(value: CachedFileInfo, modified: u64, metadata: &FileMetadata) -> (
 {
 ''')
     fn = c.fn_in("impl HashCache {", "pub fn get(")
-    ub.piece(Piece(c.if_else(fn, "if value.modified_timestamp_ms != modified")))
+    # structural anchor: everything after the computation of `modified` up to the end of the function
+    ub.piece(Piece(c.tail_after(fn, ".as_millis() as u64;")))
     ub.spec('''
 }
 
